@@ -4,12 +4,16 @@ SPEC = {
     "lean_modules": ["PallasVerif.Props.C25"],
     "required_theorems": ["accept_sound_stack1", "disjoint_refuses_stack1", "order_independent_stack1",
                           "accept_sound_stack2", "disjoint_refuses_stack2", "order_independent_stack2", "stack2_never_panics",
-                          "refusals_sound_stack1", "refusals_sound_stack2"],
+                          "refusals_sound_stack1", "refusals_sound_stack2", "highest_common_decides_stack1",
+                          "highest_common_decides_stack2", "magic_high_bits_refused_stack2"],
     "streams": [{"name": "negotiate", "quick": 600, "thorough": 30000}],
-    "rule": "one negotiation per case, alternating the two stacks: version tables of 0..16 entries each from overlapping / identical / "
-            "disjoint / boundary-number pools, 1 or 4 network magics, a 3-valued extra flag; half of the cases make the common versions "
-            "agree completely, 1/6 then spoil only the highest common one (magic or flag); distinct = sha1 of the op text; non-trivial = "
-            "the two tables share at least one version number",
+    "rule": "one negotiation per case, alternating the two stacks: version tables of 0..16 entries each; version numbers from "
+            "overlapping / identical / disjoint / boundary pools over the full u64 range, including numbers that collide under u8/u16/u32 "
+            "narrowing (13, 13+2^8, 13+2^16, 13+2^32, 13|2^63 side by side and across the two tables); version data = (magic u64, "
+            "initiator-only, peer sharing Option<u8>, query Option<bool>), magics from {mainnet, 1, 2, testnet, 0, 4, u32::MAX, u64::MAX} and "
+            "their collisions m+2^8, m+2^16, m+2^32, m^2^63, m+j*2^32; 2/3 of the cases make the common versions agree completely, 1/3 then "
+            "spoil only the highest common one in a single field (half of these: a magic equal to ours in the low 8/16/32/63 bits and "
+            "different above); distinct = sha1 of the op text; non-trivial = the two tables share at least one version number",
     "trusted_base": [
         "Model/Negotiate.lean: hand transcription of handshake::Server::handshake (pallas-network) and "
         "HandshakeResponder::try_accept_handshake (pallas-network2) over association lists; tie = stream `negotiate` (Tie B): the real "
@@ -21,6 +25,8 @@ SPEC = {
         "HashMap<u64, D> = association list with unique keys in an unspecified order (order independence is proved, not assumed)",
         "`sort_by_key(Reverse)` is modelled by Lean's stable mergeSort; `max_by_key` returns the last maximum (std documentation)",
         "stack 1 compares whole version data (equal data implies equal magic); the theorem is stated for every projection `magic`",
+        "version numbers and magics are u64 in the code and unbounded naturals compared by equality in the model (no narrowing); the "
+        "stream draws them from the whole u64 range incl. values that collide under 8/16/32-bit truncation, and Props/C25 has 64-bit witnesses",
     ],
     "explanation": "Self-tests in the pallas worktree: (1) network1 `sort_by_key(|v| v.0)` (ascending): stream negotiate reports "
                    "neg1-accept-not-highest -> exit 1 with replay; (2) network2 `.min_by_key`: neg2-accept-not-highest; (3) harmless: "
